@@ -93,7 +93,8 @@ def corpus(big=False):
     S.append(Spec('cond-command',
                   'maildir "%s/src" {\n\tmatch command "true" and header "X-Id" /^1$/ move "%s/dst"\n'
                   '\tmatch command "false" move "%s/dst2"\n'
-                  '\tmatch command { "sh" "-c" "exit 3" } or new flag !new\n}\n' % (R, R, R), [('^1$', '')]))
+                  '\tmatch command { "sh" "-c" "exit 3" } or command { "sh" "-c" "exit 200" } or command { "sh" "-c" "kill -TERM $$" } or new '
+                  'flag !new\n}\n' % (R, R, R), [('^1$', '')]))
     t = base_tree(2, 1, extra_dirs=('dst', 'dst2', 'box1'))
     S.append(Spec('cond-isdirectory',
                   'maildir "%s/src" {\n\tmatch header "X-Id" /([0-9])/ and isdirectory "%s/box\\1" move "%s/box\\1"\n'
